@@ -22,11 +22,25 @@ class _Pass:
     pass
 
 
+class _Stream:
+    """The tape's stream.  Outside the `with` block it is a private RandomState; inside, it IS numpy's process-wide RandomState object
+    (np.random.mtrand._rand) loaded with the private state: code that reaches the global generator without going through the np.random.<fn>
+    attributes (e.g. keeps a reference to it, as scikit-learn's check_random_state does) still draws from the owned stream, and a by-value copy
+    of the generator (deep copy / pickle of an object holding it) becomes visible as a stream that no longer follows the tape's re-seeding."""
+
+    def __init__(self, seed):
+        object.__setattr__(self, "_private", np.random.RandomState(seed))
+        object.__setattr__(self, "_live", None)
+
+    def __getattr__(self, name):
+        return getattr(self._live if self._live is not None else self._private, name)
+
+
 class OwnedRandom:
     PASS = _Pass()
 
     def __init__(self, seed=0, handlers=None, audit=False, lib_only_audit=True):
-        self.rs = np.random.RandomState(seed)
+        self.rs = _Stream(seed)
         self.handlers = dict(handlers or {})
         self.audit = audit
         self.log = []
@@ -38,6 +52,10 @@ class OwnedRandom:
 
     # -- context manager ---------------------------------------------------------------------
     def __enter__(self):
+        g = np.random.mtrand._rand
+        self._outer_state = g.get_state()
+        g.set_state(self.rs._private.get_state())
+        object.__setattr__(self.rs, "_live", g)
         self._saved["default_rng"] = np.random.default_rng
         tape = self
 
@@ -60,6 +78,10 @@ class OwnedRandom:
         for n, f in self._saved.items():
             setattr(np.random, n, f)
         self._saved = {}
+        g = np.random.mtrand._rand
+        self.rs._private.set_state(g.get_state())  # the tape keeps its position for a later re-entry
+        object.__setattr__(self.rs, "_live", None)
+        g.set_state(self._outer_state)             # the surrounding stream (real or an outer tape) continues where it was
         return False
 
     # -- dispatch ----------------------------------------------------------------------------
